@@ -10,7 +10,7 @@
    is what the correspondence stage compares bit for bit with CPython. *)
 From Coq Require Import List ZArith Bool QArith Qcanon.
 From Coq Require Import Reals.
-From RxVerif Require Import Math.Exact Math.ExactProofs Math.FloatModel Math.C12Corr Math.SumErrorProofs Math.SumRunningProofs Math.MeanErrorProofs Math.MinMaxFloatProofs Math.FloatOpsProofs Math.VarianceFloatProofs Math.VarianceNonnegProofs Math.WelfordReal Math.WelfordErrorProofs Math.StddevErrorProofs Math.PySumErrorProofs Math.FormalVarianceErrorProofs Math.MixedItemsProofs Math.MixedFormalProofs Math.MixedFormalErrorProofs.
+From RxVerif Require Import Math.Exact Math.ExactProofs Math.FloatModel Math.C12Corr Math.SumErrorProofs Math.SumRunningProofs Math.MeanErrorProofs Math.MinMaxFloatProofs Math.FloatOpsProofs Math.VarianceFloatProofs Math.VarianceNonnegProofs Math.WelfordReal Math.WelfordErrorProofs Math.StddevErrorProofs Math.PySumErrorProofs Math.FormalVarianceErrorProofs Math.MixedItemsProofs Math.MixedFormalProofs Math.MixedFormalErrorProofs Math.RelativeFormProofs.
 Import ListNotations.
 Open Scope Qc_scope.
 
@@ -555,6 +555,88 @@ Proof.
               (conj (proj1 mixed_example_hyps) (conj (proj1 (proj2 mixed_example_hyps)) (proj1 (proj2 (proj2 mixed_example_hyps)))))).
 Qed.
 
+(* ---------------------------------------------------------------------------------------------
+   THE LITERAL SHAPE OF THE PROPERTY: relative error <= C * n * u * kappa (+ an absolute underflow term), kappa an explicitly
+   defined condition number of the data, for every aggregate at completion, under n * u <= 1/16 (implied by n <= 10^4 and by
+   n < 2^40).  Corollaries of the bounds above (RelativeFormProofs.v):
+     kappa_sum xs       = sum |x| / |sum x|                         (sum, mean)
+     kappa_var A R var  = 1 + (R^2 + R m + m^2) / var, m = A + 2R + 2^-1022      (Welford variance / stddev; |x| <= A, spread <= R)
+     kappa_fvar R xs    = 1 + (R^2 + R m + m^2) / popvar, m = 3 mean|x| + 2^-1022 (two-pass variance / stddev)
+   min / max are exact.
+   --------------------------------------------------------------------------------------------- *)
+Theorem C12_relative_count_side_condition : forall n : nat,
+  ((Z.of_nat n <= 10000)%Z -> (INR n * u53 <= / 16)%R) /\ ((Z.of_nat n < 2 ^ 40)%Z -> (INR n * u53 <= / 16)%R).
+Proof. exact (fun n => conj (count_small_10000 n) (count_small_pow40 n)). Qed.
+Print Assumptions C12_relative_count_side_condition.
+Theorem C12_relative_sum : forall (h : hints) (l : list pfloat),
+  Forall ffin l ->
+  Forall (fun v => exists s, v = NF s /\ ffin s) (sum_run (FA h) false (map NF l)) ->
+  (INR (length l) * u53 <= / 16)%R -> sumR (map FR l) <> 0%R ->
+  exists s, sum_run (FA h) true (map NF l) = [NF s]
+            /\ (Rabs (FR s - sumR (map FR l))
+                <= 2 * INR (length l) * u53 * kappa_sum (map FR l) * Rabs (sumR (map FR l)))%R.
+Proof. exact relform_sum. Qed.
+Print Assumptions C12_relative_sum.
+Theorem C12_relative_mean : forall (h : hints) (l : list pfloat),
+  l <> [] -> (Z.of_nat (length l) < 2 ^ 53)%Z ->
+  Forall ffin l -> Forall ffin (scan_states padd Coq.Floats.PrimFloat.zero l) ->
+  ffin (Coq.Floats.PrimFloat.div (fold_left padd l Coq.Floats.PrimFloat.zero) (f_of_Z (Z.of_nat (length l)))) ->
+  (INR (length l) * u53 <= / 16)%R -> sumR (map FR l) <> 0%R ->
+  exists m, mean_run (FA h) true (map NF l) = [Some (NF m)]
+            /\ (Rabs (FR m - meanR (map FR l))
+                <= 3 * INR (length l) * u53 * kappa_sum (map FR l) * Rabs (meanR (map FR l)) + eta64)%R.
+Proof. exact relform_mean. Qed.
+Print Assumptions C12_relative_mean.
+Theorem C12_relative_min_max : forall (h : hints) (l : list pfloat), l <> [] -> Forall ffin l ->
+  (exists m, max_run (FA h) true (map NF l) = [Some (NF m)] /\ (Rabs (FR m - maxR (map FR l)) <= 0)%R)
+  /\ (exists m, min_run (FA h) true (map NF l) = [Some (NF m)] /\ (Rabs (FR m - minR (map FR l)) <= 0)%R).
+Proof. exact (fun h l Hne Hl => conj (relform_max h l Hne Hl) (relform_min h l Hne Hl)). Qed.
+Print Assumptions C12_relative_min_max.
+Theorem C12_relative_variance : forall (h : hints) (l : list pfloat) (lo hi A Rr : R),
+  (- A <= lo)%R -> (hi <= A)%R -> (hi - lo <= Rr)%R ->
+  Forall ffin l -> Forall (fun x => (lo <= FR x <= hi)%R) l -> (Z.of_nat (length l) < 2 ^ 53)%Z ->
+  Forall state_fin (scan_states (wstep (FA h)) (wseed (FA h)) (map NF l)) ->
+  (2 <= length l)%nat -> (INR (length l) * u53 <= / 16)%R ->
+  (0 < ssdR (map FR l) / INR (length l - 1))%R ->
+  exists f, variance_run (FA h) true (map NF l) = [NF f] /\ ffin f /\ (0 <= FR f)%R /\
+    (Rabs (FR f - ssdR (map FR l) / INR (length l - 1))
+     <= 5 * INR (length l) * u53 * kappa_var A Rr (ssdR (map FR l) / INR (length l - 1))
+          * (ssdR (map FR l) / INR (length l - 1)) + 3 * eta64)%R.
+Proof. exact relform_variance. Qed.
+Print Assumptions C12_relative_variance.
+Theorem C12_relative_stddev : forall (h : hints) (l : list pfloat) (lo hi A Rr : R),
+  (- A <= lo)%R -> (hi <= A)%R -> (hi - lo <= Rr)%R ->
+  Forall ffin l -> Forall (fun x => (lo <= FR x <= hi)%R) l -> (Z.of_nat (length l) < 2 ^ 53)%Z ->
+  Forall state_fin (scan_states (wstep (FA h)) (wseed (FA h)) (map NF l)) ->
+  (2 <= length l)%nat -> (INR (length l) * u53 <= / 16)%R ->
+  (0 < ssdR (map FR l) / INR (length l - 1))%R ->
+  exists g, stddev_run (FA h) true (map NF l) = [NF g] /\ ffin g /\
+    (Rabs (FR g - rsqrt (ssdR (map FR l) / INR (length l - 1)))
+     <= 7 * INR (length l) * u53 * kappa_var A Rr (ssdR (map FR l) / INR (length l - 1))
+          * rsqrt (ssdR (map FR l) / INR (length l - 1))
+        + 4 * eta64 / rsqrt (ssdR (map FR l) / INR (length l - 1)))%R.
+Proof. exact relform_stddev. Qed.
+Print Assumptions C12_relative_stddev.
+Theorem C12_relative_formal_variance : forall (h : hints) (l : list pfloat) (lo hi Rr : R),
+  l <> [] -> Forall ffin l -> Forall (fun x => (lo <= FR x <= hi)%R) l -> (hi - lo <= Rr)%R ->
+  (Z.of_nat (length l) < 2 ^ 53)%Z -> fvar_fin h l = true ->
+  (INR (length l) * u53 <= / 16)%R -> (0 < popvarR (map FR l))%R ->
+  exists f, fvariance_run (FA h) true (map NF l) = [NF f] /\ ffin f /\
+    (Rabs (FR f - popvarR (map FR l))
+     <= 31 * INR (length l) * u53 * kappa_fvar Rr (map FR l) * popvarR (map FR l) + 7 * eta64)%R.
+Proof. exact relform_fvariance. Qed.
+Print Assumptions C12_relative_formal_variance.
+Theorem C12_relative_formal_stddev : forall (h : hints) (l : list pfloat) (lo hi Rr : R),
+  l <> [] -> Forall ffin l -> Forall (fun x => (lo <= FR x <= hi)%R) l -> (hi - lo <= Rr)%R ->
+  (Z.of_nat (length l) < 2 ^ 53)%Z -> fstd_fin h l = true ->
+  (INR (length l) * u53 <= / 16)%R -> (0 < popvarR (map FR l))%R ->
+  exists g, fstddev_run (FA h) true (map NF l) = [NF g] /\ ffin g /\
+    (Rabs (FR g - rsqrt (popvarR (map FR l)))
+     <= 39 * INR (length l) * u53 * kappa_fvar Rr (map FR l) * rsqrt (popvarR (map FR l))
+        + 9 * eta64 / rsqrt (popvarR (map FR l)))%R.
+Proof. exact relform_fstddev. Qed.
+Print Assumptions C12_relative_formal_stddev.
+
 Theorem C12_float_unit_roundoff : u53 = (/ 2 ^ 53)%R.
 Proof. exact u53_value. Qed.
 Print Assumptions C12_float_unit_roundoff.
@@ -576,8 +658,10 @@ Print Assumptions C12_float_unit_roundoff.
    model and replayed on the code), so that case has its own direct bound (the C12_mixed_formal error_bound theorems: the
    uncompensated int additions each cost one rounding).  With that every aggregate has its binary64 bound on float, int and
    mixed items, under the stated magnitude and finiteness side conditions (ints below 2^53 in magnitude, leading int partial
-   sums too, no overflow).  The bounds are a-priori bounds in terms of
-   u, n, the range and the magnitude of the data (the conditioning), not the sharpest known constants. *)
+   sums too, no overflow).  The C12_relative theorems put every completion-value bound on float lists
+   into the literal shape C * n * u * kappa * |v| (+ underflow term) with explicit condition numbers.  The bounds are a-priori
+   bounds in terms of u, n, the range and the magnitude of the data (the conditioning), not the sharpest known constants;
+   the relative forms for streaming values and for int / mixed items are not restated (their explicit bounds are above). *)
 Theorem C12_partial : forall (sq : Qc -> Qc) (xs : list Qc),
   sum_run (QA sq) true xs = [qsum xs]
   /\ variance_run (QA sq) true xs = [sample_var xs]
